@@ -232,6 +232,7 @@ func c8ReleaseFns(c *Ctx) map[string]bool {
 			}
 		}
 	}
+	c8CloseReleaseFns(c, out)
 	return out
 }
 
@@ -255,6 +256,10 @@ func checkC08(c *Ctx) {
 	c.Rule("R8.3", "no use of an object, and no escaping reference into its storage, after it was released", 8)
 	c.Rule("R8.11", "the reflection scratch buffer is emptied before every use, and whenever it is exchanged the reflection encoder is rebuilt over the new one (an encoder left bound to a buffer that went back to the pool writes into the next owner's entry)", 1)
 	c.As(map[string]string{"R10.7": "R8.11"}, func() { c10ScratchReset(c, "R10.7") })
+	c.Rule("R8.13", "a pool's constructor builds each object from nothing shared (no slice, map or pointer copied out of a package-level prototype)", 6)
+	c8PoolCtorsFresh(c, "R8.13")
+	c.Rule("R8.12", "the observer hands out a copy of its entries, or its array after giving it up - never a view of the array it goes on appending into (entries observed later would rewrite the ones already taken)", 2)
+	c8ObserverHandsOutOwnStorage(c, "R8.12")
 	c.Rule("R8.10", "no Core keeps the caller's field slice: what Write (or With) records is a copy (the caller may reuse its slice for the next call, which would rewrite what was already recorded)", 2)
 	c8NoRetainedFields(c, "R8.10")
 	c.Rule("R8.4", "a buffer is released at most once: field cleared (or holder recycled) after Free; EncodeEntry's buffer freed exactly once after the write", 3)
@@ -347,6 +352,7 @@ func checkC08(c *Ctx) {
 	}
 	releaseFns["(*go.uber.org/zap/buffer.Buffer).Free"] = true
 	releaseFns[poolPut] = true
+	c8CloseReleaseFns(c, releaseFns)
 	c8UseAfterRelease(c, "R8.3", releaseFns)
 	c8SingleRelease(c)
 	c8Ownership(c)
@@ -377,6 +383,50 @@ func checkC08(c *Ctx) {
 	c9EncoderPurity(c, "R8.6")
 }
 
+// relArgIdx: which argument of a release function is the object released (the receiver/first argument when absent).
+var relArgIdx = map[string]int{poolPut: 1}
+
+// releasedObj: the object a call to a release function releases.
+func releasedObj(cl ssa.CallInstruction) ssa.Value {
+	args := Args(cl)
+	i := relArgIdx[relName(cl)]
+	if i >= len(args) {
+		return nil
+	}
+	return args[i]
+}
+
+// c8CloseReleaseFns: a function of the module that, on every path, hands one of its own parameters to a release
+// function releases that parameter itself: its call sites are release points too.
+func c8CloseReleaseFns(c *Ctx, m map[string]bool) {
+	for round := 0; round < 3; round++ {
+		c.EachRootFunc(func(f *ssa.Function) {
+			if f.Parent() != nil || m[f.String()] || f.Synthetic != "" {
+				return
+			}
+			for _, cl := range Calls(f) {
+				if _, isGo := cl.(*ssa.Go); isGo || !m[relName(cl)] {
+					continue
+				}
+				obj := releasedObj(cl)
+				p, isP := Strip(obj).(*ssa.Parameter)
+				if obj == nil || !isP || p.Parent() != f {
+					continue
+				}
+				if !mustPass(f, func(i ssa.Instruction) bool { return i == ssa.Instruction(cl) }) {
+					continue
+				}
+				for i, q := range f.Params {
+					if q == p {
+						m[f.String()] = true
+						relArgIdx[f.String()] = i
+					}
+				}
+			}
+		})
+	}
+}
+
 func relName(cl ssa.CallInstruction) string {
 	if f := CalleeFunc(cl); f != nil {
 		return f.FullName()
@@ -405,13 +455,9 @@ func c8UseAfterRelease(c *Ctx, rule string, releaseFns map[string]bool) {
 					continue
 				}
 				_ = df
-				args := Args(cl)
-				if len(args) == 0 {
+				obj := releasedObj(cl)
+				if obj == nil {
 					continue
-				}
-				obj := args[0]
-				if relName(cl) == poolPut && len(args) == 2 {
-					obj = args[1]
 				}
 				objS := Strip(obj)
 				// resolve a captured variable to what the enclosing function stored in it
@@ -491,6 +537,18 @@ func c8UseAfterRelease(c *Ctx, rule string, releaseFns map[string]bool) {
 						}
 					}
 				}
+				// ... or handed to a function that keeps it
+				AllInstrs(fn, func(i ssa.Instruction) {
+					ld, ok := i.(*ssa.UnOp)
+					if !ok || ld.Op != token.MUL || !isRefType(ld.Type()) {
+						return
+					}
+					if fa, ok := ld.X.(*ssa.FieldAddr); ok && Strip(fa.X) == objS {
+						if e := escapes(ld, objS, 0); strings.HasPrefix(e, "is kept by") {
+							esc = append(esc, "field "+fieldName(fa.X.Type(), fa.Field)+" "+e)
+						}
+					}
+				})
 				if len(esc) > 0 {
 					n++
 					c.Bad(rule, FuncKey(fn), "deferred-release/"+strings.TrimPrefix(relName(cl), "go.uber.org/zap/")+"("+Desc(obj)+")", cl.Pos(), "the object is released by a deferred call, i.e. before the caller uses the result, yet a reference into its storage %v", esc)
@@ -502,20 +560,33 @@ func c8UseAfterRelease(c *Ctx, rule string, releaseFns map[string]bool) {
 			if !isCall || !releaseFns[relName(cl)] {
 				continue
 			}
-			args := Args(cl)
-			obj := args[len(args)-1]
-			if relName(cl) == poolPut && len(args) == 2 {
-				obj = args[1]
-			} else {
-				obj = args[0]
+			obj := releasedObj(cl)
+			if obj == nil {
+				continue
 			}
-			if _, isParam := Strip(obj).(*ssa.Parameter); isParam && strings.Contains(relName(cl), "Pool[T]") {
-				continue // the wrapper itself
-			}
+			// (a Put of the function's own parameter - a release function - is examined like any other: nothing may
+			// touch the object once the pool has it)
 			n++
 			name := FuncKey(fn)
 			slot := "release/" + strings.TrimPrefix(relName(cl), "go.uber.org/zap/") + "(" + Desc(obj) + ")"
 			objS := Strip(obj)
+			// released here and once more by a deferred call of the same function: the pool then hands the object to
+			// two owners
+			twice := false
+			for _, dl := range Calls(fn) {
+				df, isDefer := dl.(*ssa.Defer)
+				if !isDefer || !releaseFns[relName(dl)] {
+					continue
+				}
+				dobj := releasedObj(df)
+				if dobj != nil && Strip(dobj) == objS {
+					twice = true
+					c.Bad(rule, name, slot+"/double-release", call.Pos(), "%s is released here and again by the deferred %s registered at %s: the pool ends up holding it twice and hands it to two calls at once", Desc(obj), relName(dl), c.Pos(df.Pos()))
+				}
+			}
+			if twice {
+				continue
+			}
 			// use after release
 			w := WitnessPath(fn, call, func(i ssa.Instruction) bool {
 				if _, isDbg := i.(*ssa.DebugRef); isDbg {
@@ -635,6 +706,19 @@ func escapes(v ssa.Value, owner ssa.Value, depth int) string {
 				// appended as an element (arg 1..) or as the base slice
 				if e := escapes(x, owner, depth+1); e != "" {
 					return e
+				}
+				continue
+			}
+			// handed to a function of the module that keeps what it is given (stores it, or captures it in a function
+			// literal that outlives the call)
+			for ai, a := range x.Call.Args {
+				if a != v {
+					continue
+				}
+				for _, q := range calleeParams(x, ai) {
+					if retainsParam(q, 0) {
+						return "is kept by " + q.Parent().String() + " (parameter " + q.Name() + ")"
+					}
 				}
 			}
 		}
@@ -987,5 +1071,204 @@ func c8NoRetainedFields(c *Ctx, rule string) {
 	}
 	if n < 8 {
 		c.Bad(rule, "zapcore.Core implementations", "count", token.NoPos, "expected Write and With of at least 4 Core implementations, examined %d methods", n)
+	}
+}
+
+// c8ObserverHandsOutOwnStorage: the observer's log store. A method of ObservedLogs that returns a slice of entries
+// returns either a fresh copy, or the store's own array after giving it up (the field is set to nil or to a fresh
+// slice on that path) - never a view of an array the store goes on appending into: entries observed later would
+// overwrite the ones already handed out.
+func c8ObserverHandsOutOwnStorage(c *Ctx, rule string) {
+	const obsPath = "go.uber.org/zap/zaptest/observer"
+	ol := c.Named(obsPath, "ObservedLogs")
+	if !c.Anchor(rule, "observer.ObservedLogs", ol != nil) {
+		return
+	}
+	// the store: the type's slice field
+	st, _ := ol.Underlying().(*types.Struct)
+	store := ""
+	for i := 0; st != nil && i < st.NumFields(); i++ {
+		if _, isSl := types.Unalias(st.Field(i).Type()).Underlying().(*types.Slice); isSl {
+			store = FN(st.Field(i))
+		}
+	}
+	if !c.Anchor(rule, "observer.ObservedLogs: its slice field", store != "") {
+		return
+	}
+	n := 0
+	c.EachRootFunc(func(fn *ssa.Function) {
+		rn := RecvNamed(fn)
+		if rn == nil || rn.Obj() != ol.Obj() || fn.Parent() != nil || fn.Signature.Results().Len() != 1 || fn.Synthetic != "" {
+			return
+		}
+		if _, isSl := types.Unalias(fn.Signature.Results().At(0).Type()).Underlying().(*types.Slice); !isSl {
+			return
+		}
+		n++
+		rc := PN(fn.Params[0])
+		resolve := func(s *ConcState, v ssa.Value) ssa.Value {
+			for k := 0; k < 16; k++ {
+				if sl, ok := v.(*ssa.Slice); ok {
+					v = sl.X
+					continue
+				}
+				nx := s.Step(v)
+				if nx == nil {
+					break
+				}
+				v = nx
+			}
+			return v
+		}
+		isStoreLoad := func(s *ConcState, v ssa.Value) bool {
+			ld, ok := v.(*ssa.UnOp)
+			return ok && ld.Op == token.MUL && strings.TrimPrefix(s.Desc(ld.X), "&") == rc+"."+store
+		}
+		seqs, trunc := ConcPaths(fn, ConcCfg{
+			InlineAny: func(h *ssa.Function) bool { r := RecvNamed(h); return r != nil && r.Obj() == ol.Obj() },
+			Event: func(in ssa.Instruction, s *ConcState) string {
+				switch x := in.(type) {
+				case *ssa.Store:
+					if fa, ok := x.Addr.(*ssa.FieldAddr); ok && fieldName(fa.X.Type(), fa.Field) == store && s.Desc(fa.X) == rc {
+						if isNil, known := s.IsNil(x.Val); known && isNil {
+							return "store=nil"
+						}
+						switch b := resolve(s, x.Val).(type) {
+						case *ssa.MakeSlice:
+							return "store=fresh"
+						case *ssa.Call:
+							if CallBuiltin(b) == "append" {
+								return "store=append"
+							}
+						}
+						return "store=kept(" + s.Desc(x.Val) + ")"
+					}
+				case *ssa.Return:
+					if len(s.cfg.stackDepth()) != 0 || len(x.Results) != 1 {
+						return ""
+					}
+					v := resolve(s, x.Results[0])
+					switch b := v.(type) {
+					case *ssa.MakeSlice:
+						return "ret-fresh"
+					case *ssa.Const:
+						if b.Value == nil {
+							return "ret-nil"
+						}
+					}
+					if isStoreLoad(s, v) {
+						return "ret-storage"
+					}
+					return "ret-other(" + s.Desc(x.Results[0]) + ")"
+				}
+				return ""
+			},
+		})
+		var bad []string
+		for _, sq := range seqs {
+			switch sq {
+			case "ret-fresh", "ret-nil", "store=nil ; ret-storage", "store=fresh ; ret-storage":
+			default:
+				bad = append(bad, sq)
+			}
+		}
+		c.Check(!trunc && len(seqs) > 0 && len(bad) == 0, rule, fn.String(), "hands-out-own-storage", fn.Pos(), "on every path the entries returned are a fresh copy, or the store's array after the store gave it up (set to nil or to a fresh slice): %v", bad)
+	})
+	if n < 2 {
+		c.Bad(rule, "observer.ObservedLogs", "count", token.NoPos, "expected at least two methods that hand out entries (All, TakeAll), found %d", n)
+	}
+}
+
+// c8PoolCtorsFresh: what a pool's constructor hands out is built from nothing shared. The object is allocated by the
+// constructor, and nothing read from a package-level variable goes into it when that value has (or is) a slice, map
+// or pointer: every object made that way would share the storage with all its siblings.
+func c8PoolCtorsFresh(c *Ctx, rule string) {
+	n := 0
+	for _, pd := range discoverPools(c) {
+		f := pd.newFn
+		if f == nil || len(f.Blocks) == 0 {
+			continue
+		}
+		n++
+		var shared []string
+		hasRef := func(t types.Type) bool {
+			found := false
+			var walk func(t types.Type, d int)
+			walk = func(t types.Type, d int) {
+				if d > 4 || found {
+					return
+				}
+				switch u := types.Unalias(t).Underlying().(type) {
+				case *types.Slice, *types.Map, *types.Pointer, *types.Chan:
+					found = true
+				case *types.Struct:
+					for i := 0; i < u.NumFields(); i++ {
+						walk(u.Field(i).Type(), d+1)
+					}
+				case *types.Array:
+					walk(u.Elem(), d+1)
+				}
+			}
+			walk(t, 0)
+			return found
+		}
+		fromGlobal := func(v ssa.Value) (string, bool) {
+			for k := 0; k < 8; k++ {
+				switch x := v.(type) {
+				case *ssa.UnOp:
+					if x.Op != token.MUL {
+						return "", false
+					}
+					v = x.X
+					continue
+				case *ssa.FieldAddr:
+					v = x.X
+					continue
+				case *ssa.IndexAddr:
+					v = x.X
+					continue
+				case *ssa.Slice:
+					v = x.X
+					continue
+				case *ssa.ChangeType:
+					v = x.X
+					continue
+				case *ssa.Global:
+					return x.Name(), true
+				}
+				break
+			}
+			return "", false
+		}
+		for _, g := range WithClosures(f) {
+			AllInstrs(g, func(i ssa.Instruction) {
+				st, ok := i.(*ssa.Store)
+				if !ok || !hasRef(st.Val.Type()) {
+					return
+				}
+				if _, isLd := st.Val.(*ssa.UnOp); !isLd {
+					if _, isSl := st.Val.(*ssa.Slice); !isSl {
+						return
+					}
+				}
+				if gn, is := fromGlobal(st.Val); is {
+					shared = append(shared, Desc(st.Addr)+" = (from package variable "+gn+") "+Desc(st.Val))
+				}
+			})
+		}
+		for _, r := range Returns(f) {
+			for _, rv := range RetVals(r) {
+				if gn, is := fromGlobal(Strip(rv)); is {
+					shared = append(shared, "returns (from package variable "+gn+") "+Desc(rv))
+				}
+				if g, isG := Strip(rv).(*ssa.Global); isG {
+					shared = append(shared, "returns the address of package variable "+g.Name())
+				}
+			}
+		}
+		c.Check(len(shared) == 0, rule, pd.name, "constructor-shares-nothing", f.Pos(), "the pool's constructor fills the new object with nothing read from a package-level variable that is or holds a slice, map or pointer (objects made from a shared prototype share its storage): %v", shared)
+	}
+	if n < 6 {
+		c.Bad(rule, "pools", "constructors", token.NoPos, "expected at least 6 pool constructors, examined %d", n)
 	}
 }
